@@ -597,24 +597,25 @@ where
 //@     control is Enter && r is Err ==> (final(editor).line_bytes() == old(editor).line_bytes() && final(editor).cur() == old(editor).cur())
 //@         || (final(editor).line_bytes() == Seq::<u8>::empty() && final(editor).cur() == 0),   // [C14]
 //@     // C05 at the session level: Backspace removes the character before the cursor, Left / Right move by one whole
-//@     // character and stop at the ends -- whatever the sink does
+//@     // character and stop at the ends -- whatever the sink does (C14: after a failed write the line is as the key
+//@     // would have left it, never a mixture)
 //@     control is Backspace ==> ({ let l = old(editor).line(); let c = old(editor).cur() as int;
 //@         &&& c > 0 ==> final(editor).line() == l.remove(c - 1) && final(editor).cur() == c - 1
-//@         &&& c == 0 ==> final(editor).line() == l && final(editor).cur() == 0 }),   // [C05,~C01,C17]
+//@         &&& c == 0 ==> final(editor).line() == l && final(editor).cur() == 0 }),   // [C05,~C01,C17,C14]
 //@     control is Back ==> final(editor).line_bytes() == old(editor).line_bytes()
-//@         && final(editor).cur() == (if old(editor).cur() > 0 { old(editor).cur() - 1 } else { 0 }) as nat,   // [C05,~C01]
+//@         && final(editor).cur() == (if old(editor).cur() > 0 { old(editor).cur() - 1 } else { 0 }) as nat,   // [C05,~C01,C14]
 //@     control is Forward ==> final(editor).line_bytes() == old(editor).line_bytes()
-//@         && final(editor).cur() == (if old(editor).cur() < old(editor).line().len() { old(editor).cur() + 1 } else { old(editor).cur() }),   // [C05,~C01]
+//@         && final(editor).cur() == (if old(editor).cur() < old(editor).line().len() { old(editor).cur() + 1 } else { old(editor).cur() }),   // [C05,~C01,C14]
 //@     // C10 at the session level: Up / Down recall submitted lines (see navigate_history), Enter records the line as
 //@     // submitted (byte for byte, before tokenisation), every other key leaves the history alone
 //@     feat_history() && control is Up ==> final(self).hist_entries() == old(self).hist_entries()
 //@         && (match nav_older(old(self).hist_entries().len() as int, old(self).hist_nav()) {
 //@             Some(t) => final(editor).line_bytes() == (if old(self).hist_entries()[t].len() <= old(editor).cap() { old(self).hist_entries()[t] } else { Seq::<u8>::empty() }),
-//@             None => final(editor).line_bytes() == old(editor).line_bytes() && final(editor).cur() == old(editor).cur() }),   // [C10,~C01]
+//@             None => final(editor).line_bytes() == old(editor).line_bytes() && final(editor).cur() == old(editor).cur() }),   // [C10,~C01,C14]
 //@     feat_history() && control is Down ==> final(self).hist_entries() == old(self).hist_entries()
 //@         && (match nav_newer(old(self).hist_entries().len() as int, old(self).hist_nav()) {
 //@             Some(t) => final(editor).line_bytes() == (if old(self).hist_entries()[t].len() <= old(editor).cap() { old(self).hist_entries()[t] } else { Seq::<u8>::empty() }),
-//@             None => final(editor).line_bytes() == Seq::<u8>::empty() }),   // [C10,~C01]
+//@             None => final(editor).line_bytes() == Seq::<u8>::empty() }),   // [C10,~C01,C14]
 //@     feat_history() && control is Enter && r is Ok ==> ({
 //@         let l = old(editor).line_bytes(); let es = old(self).hist_entries(); let hc = old(self).hist_cap();
 //@         &&& recordable(l, hc) ==> final(self).hist_entries() == hist_push(es, l, hc) && final(self).hist_nav() is None
@@ -709,9 +710,9 @@ where
     ) -> Result<(), E> {
 //@ requires old(editor).wf(),
 //@ ensures final(editor).wf(), final(editor).cap() == old(editor).cap(), final(self).rest_eq(old(self)),   // [~C01,~C02,~C03,~C05,~C06,~C11,C14,~C17]
-//@     final(editor).line_bytes() == old(editor).line_bytes(),   // [C05]
-//@     dir is Backward ==> final(editor).cur() == (if old(editor).cur() > 0 { old(editor).cur() - 1 } else { 0 }) as nat,   // [C05,~C01]
-//@     dir is Forward ==> final(editor).cur() == (if old(editor).cur() < old(editor).line().len() { old(editor).cur() + 1 } else { old(editor).cur() }),   // [C05,~C01]
+//@     final(editor).line_bytes() == old(editor).line_bytes(),   // [C05,C14]
+//@     dir is Backward ==> final(editor).cur() == (if old(editor).cur() > 0 { old(editor).cur() - 1 } else { 0 }) as nat,   // [C05,~C01,C14]
+//@     dir is Forward ==> final(editor).cur() == (if old(editor).cur() < old(editor).line().len() { old(editor).cur() + 1 } else { old(editor).cur() }),   // [C05,~C01,C14]
 //@     r is Ok ==> final(self).sink_ok(old(self)),   // [C14,C15]
 //@     // C06: the terminal cursor follows the editor cursor, and stays where it is at the ends of the line
 //@     r is Ok && old(self).disp(old(editor)) ==> final(self).disp(final(editor)),   // [C06]
@@ -755,7 +756,7 @@ where
 //@                    && final(editor).cur() == old(editor).cur() })
 //@        &&& dir is Newer ==> final(self).hist_nav() == nav_newer(n, nav) && (match nav_newer(n, nav) {
 //@                Some(t) => final(editor).line_bytes() == (if es[t].len() <= cap { es[t] } else { Seq::<u8>::empty() }),
-//@                None => final(editor).line_bytes() == Seq::<u8>::empty() }) }),   // [C10,~C01]
+//@                None => final(editor).line_bytes() == Seq::<u8>::empty() }) }),   // [C10,~C01,C14]
         let history_elem = match dir {
             NavigateHistory::Older => self.history.next_older(),
             NavigateHistory::Newer => self.history.next_newer().or(Some("")),
@@ -816,7 +817,7 @@ where
 //@                && final(editor).line_bytes() == #[trigger] ac_apply(line, rl, st, cap)
 //@                && (st.auto is None ==> final(editor).cur() == old(editor).cur())
 //@                && (st.auto is Some ==> final(editor).cur() == final(editor).line().len()),
-//@        } }),   // [C11]
+//@        } }),   // [C11,C14]
 //@     // C06: what was completed is echoed from the old cursor position on, so the terminal shows the new line
 //@     r is Ok && old(self).disp(old(editor)) && printable_bytes(final(editor).line_bytes()) ==> final(self).disp(final(editor)),   // [C06]
         let initial_cursor = editor.cursor();
